@@ -158,7 +158,7 @@ class Trend(BaseGridder):
 
         """
         check_is_fitted(self, ["coef_"])
-        easting, northing = n_1d_arrays(coordinates, 2)
+        easting, northing = n_1d_arrays(np.broadcast_arrays(*coordinates[:2]), 2)
         shape = np.broadcast(*coordinates[:2]).shape
         data = np.zeros(easting.size, dtype=np.result_type(easting.dtype, np.float32))
         combinations = polynomial_power_combinations(self.degree)
